@@ -21,6 +21,19 @@ from ..gen import objects as O
 from ..oracles import geometry as G
 from ..scenario import Run, gen_scenario
 
+def _lib_of():
+    # library functions are called from the modules that define them (not through a name another module happens to import)
+    import perception_eval.evaluation.matching.objects_filter as m
+
+    return m
+
+
+def _lib_or():
+    import perception_eval.evaluation.result.object_result as m
+
+    return m
+
+
 LEVEL_TEXT = (
     "Held on every ordered threshold pair evaluated under the comparator: the same real result objects (produced by the real "
     "matcher from generated scenes, ordinary ground truth only) are evaluated at a chain of thresholds drawn from their own "
@@ -167,7 +180,7 @@ def run(ctx: Ctx) -> None:
             kw = dict(kw, ground_truth_objects=gts, evaluation_task=EvaluationTask.DETECTION, matchable_thresholds=None)
             ctx.begin_case("results", idx, **c["case"])
             with ctx.case_guard("results"):
-                results = mgr_mod.get_object_results(**kw)
+                results = _lib_or().get_object_results(**kw)
                 for mode in MatchingMode:
                     scores = [res.get_matching(mode).value for res in results if res.ground_truth_object is not None]
                     chain = looser_chain(mode, scores, r)
@@ -211,7 +224,7 @@ def run(ctx: Ctx) -> None:
             r.shuffle(ests)
             ctx.begin_case("duplicate_annotations", idx, near=near, far=far)
             with ctx.case_guard("duplicate_annotations"):
-                results = mgr_mod.get_object_results(evaluation_task=EvaluationTask.DETECTION, estimated_objects=ests, ground_truth_objects=gts, target_labels=LABELS)
+                results = _lib_or().get_object_results(evaluation_task=EvaluationTask.DETECTION, estimated_objects=ests, ground_truth_objects=gts, target_labels=LABELS)
                 chain = sorted({round(near + 0.05, 3), round((near + far) / 2, 3), round(far + 0.05, 3), 3.0})
                 info = dict(mode=str(MatchingMode.CENTERDISTANCE), policy="DEFAULT", n_results=len(results), n_gt=len(gts), chain=chain, duplicate_annotation=True)
                 flips = chain_on_results(ctx, results, gts, MatchingMode.CENTERDISTANCE, chain, info)
@@ -227,7 +240,7 @@ def run(ctx: Ctx) -> None:
             kw = dict(kw, ground_truth_objects=gts, evaluation_task=EvaluationTask.DETECTION2D, matchable_thresholds=None)
             ctx.begin_case("results_2d", idx, **c["case"])
             with ctx.case_guard("results_2d"):
-                results = mgr_mod.get_object_results(**kw)
+                results = _lib_or().get_object_results(**kw)
                 for mode in MatchingMode:
                     scores = []
                     if mode in (MatchingMode.CENTERDISTANCE, MatchingMode.IOU2D):  # the two scores a 2D object has
